@@ -11,6 +11,7 @@ import json, os, re, shutil, sys
 
 root, confirm = sys.argv[1], json.load(open(sys.argv[2]))
 matrix = json.load(open(sys.argv[3])) if len(sys.argv) > 3 and os.path.exists(sys.argv[3]) else {}
+PREFIX = sys.argv[4] if len(sys.argv) > 4 else ""  # e.g. "w4-" for the fourth wave: seeded/<prop>/w4-m1
 OUT = "/verif/seeded"
 
 
@@ -31,7 +32,7 @@ for name, r in sorted(confirm.items()):
         skipped += 1
         print("skip", name, {k: r.get(k) for k in ("applies", "demo_clean_exit", "demo_patched_exit", "suite_ok")})
         continue
-    dst = os.path.join(OUT, name)
+    dst = os.path.join(OUT, name.split("/")[0], PREFIX + name.split("/")[1])
     os.makedirs(dst, exist_ok=True)
     for f in ("patch.diff", "demo.py", "notes.md"):
         if os.path.exists(os.path.join(src, f)):
@@ -43,7 +44,7 @@ for name, r in sorted(confirm.items()):
     title = notes.splitlines()[0].lstrip("# ").strip() if notes else name
     meta = {
         "property": name.split("/")[0],
-        "seed": name,
+        "seed": name.split("/")[0] + "/" + PREFIX + name.split("/")[1],
         "title": title,
         "clause_broken": section(notes, "clause"),
         "needs_to_manifest": section(notes, "needs", "trigger", "manifest"),
